@@ -116,7 +116,18 @@ META["C11"] = {
     "technique": "explicit-state BFS over demand programs on the implementation with envelope oracles; exhaustive grid enumeration",
 }
 
-ENGINE_OF = {"C11": "seq", "C10": "seq+sched", "C12": "sched", "C03": "seq", "C06": "seq+sched", "C09": "sched", "C08": "seq", "C02": "seq+sched", "C04": "seq+sched", "C01": "seq+sched"}
+META["C05"] = {
+    "level": "exploration",
+    "rule": "four configuration families (F1 reject: threshold 0-3 x burst 0-2 x duration 1-2 s x specific item none / A->0 / A->5; F2 throttling: threshold 1/2/3/1500 x duration x max queueing 0/1/500/1000 ms x sleep answer; F3 argument selection by index 0/1/-1/-3/5 or attachment key with string / int / bool / float / struct values; F4 capacity 1-2 below the number of values); per configuration BFS over all multi-value arrival histories (requests for 2-6 values with batch 1/2, requests without the selected argument, clock advances 1/399/500/999/1000/1001/2001 ms) to the depth bound through api.Entry; oracles: envelope inequalities per value (long-run, per-duration, idle-value grant, spacing in exact integer arithmetic, wait < limit), requests without the argument never limited, and a DIFFERENTIAL independence oracle: every request is mirrored on a private resource with the same rule that only ever sees that value and both decisions and waits must agree; distinct = configuration + answer vector",
+    "assumptions": [A_CLOCK, A_OVERLAY, "NaN float keys and unhashable arguments are outside the alphabet (C01 covers the panic path)", "with capacity below the number of live values only per-request bounds are asserted (the statement conditions independence on capacity)"],
+    "budget_quick": 90,
+    "budget_thorough": 1200,
+    "text": "Bounded exhaustive exploration of multi-value histories with envelope and differential oracles (the hotspot token algorithm has no exact reference in the statement).",
+    "level_note": "Envelope oracles; depth 6 quick / 8 thorough; finite configuration grid.",
+    "technique": "explicit-state BFS over operation sequences on the implementation with envelope and differential (two-instance) oracles",
+}
+
+ENGINE_OF = {"C05": "seq", "C11": "seq", "C10": "seq+sched", "C12": "sched", "C03": "seq", "C06": "seq+sched", "C09": "sched", "C08": "seq", "C02": "seq+sched", "C04": "seq+sched", "C01": "seq+sched"}
 
 # properties not claimed, with the reason (kept current)
 NOT_APPLICABLE = {}
